@@ -91,6 +91,31 @@ def check_formula(f, prog_txt):
                 fail("C02:fraction", "mass fraction of %r in %s" % (a, f), program=prog_txt)
 
 
+def atom_text(a):
+    z, A, q = atom_key(a)
+    t = a.symbol if (z, A) in ((1, 2), (1, 3)) else (periodictable.elements[z].symbol + ("[%d]" % A if A else ""))
+    if q:
+        t += "{%s%s}" % (abs(q) if abs(q) > 1 else "", "+" if q > 0 else "-")
+    return t
+
+
+def count_text(exact):
+    c = pool.count(exact)
+    if c == 1:
+        return ""
+    return repr(c) if isinstance(c, float) else str(c)
+
+
+def gen_string(exact, depth=2):
+    parts = []
+    for _ in range(rng.randint(1, 3)):
+        if depth > 0 and rng.random() < 0.35:
+            parts.append("(" + gen_string(exact, depth - 1) + ")" + count_text(exact))
+        else:
+            parts.append("".join(atom_text(pool.atom()) + count_text(exact) for _ in range(rng.randint(1, 3))))
+    return rng.choice(["+", " ", " + "]).join(parts)
+
+
 def gen_program(exact, length):
     vars_, ops, snaps, txt = {}, [], [], []
     nextv = 0
@@ -98,13 +123,21 @@ def gen_program(exact, length):
     def q(x):
         return qterm(x)
     for step in range(length):
-        kinds = ["formula"] * 3
+        kinds = ["formula"] * 3 + ["string"]
         if vars_:
             kinds += ["add"] * 3 + ["rmul"] * 3 + ["iadd"] * 2 + ["alias", "fromf"]
         k = rng.choice(kinds)
         before = {v: (id(f), copy.deepcopy(f.structure) if False else f.structure, f.density, f.name) for v, f in vars_.items()}
         touched = None
-        if k == "formula":
+        if k == "string":
+            v = nextv; nextv += 1
+            text = gen_string(exact)
+            dens = rng.choice([None, None, round(rng.uniform(0.5, 12), 2)])
+            name = rng.choice([None, None, "named%d" % step])
+            vars_[v] = formula(text, density=dens, name=name)
+            ops.append("(XParse %d %s %s None %s)" % (v, cstr(text), optq_term(dens), optstr_term(name)))
+            txt.append("v%d = formula(%r, density=%r, name=%r)" % (v, text, dens, name))
+        elif k == "formula":
             v = nextv; nextv += 1
             sk = rng.choice(["atom", "dict", "nested", "nested", "empty"])
             dens = rng.choice([None, None, round(rng.uniform(0.5, 12), 2)])
@@ -133,18 +166,18 @@ def gen_program(exact, length):
                 s = "SEmpty"
                 txt.append("v%d = formula('', density=%r, name=%r)" % (v, dens, name))
             vars_[v] = f
-            ops.append("(OFormula %d %s %s None %s)" % (v, s, optq_term(dens), optstr_term(name)))
+            ops.append("(XO (OFormula %d %s %s None %s))" % (v, s, optq_term(dens), optstr_term(name)))
         elif k == "fromf":
             x = rng.choice(sorted(vars_)); v = nextv; nextv += 1
             dens = rng.choice([None, None, round(rng.uniform(0.5, 12), 2)])
             name = rng.choice([None, None, "", "copy%d" % step])
             vars_[v] = formula(vars_[x], density=dens, name=name)
-            ops.append("(OFormula %d (SFormula %d) %s None %s)" % (v, x, optq_term(dens), optstr_term(name)))
+            ops.append("(XO (OFormula %d (SFormula %d) %s None %s))" % (v, x, optq_term(dens), optstr_term(name)))
             txt.append("v%d = formula(v%d, density=%r, name=%r)" % (v, x, dens, name))
         elif k == "add":
             x, y = rng.choice(sorted(vars_)), rng.choice(sorted(vars_)); v = nextv; nextv += 1
             vars_[v] = vars_[x] + vars_[y]
-            ops.append("(OAdd %d %d %d)" % (v, x, y))
+            ops.append("(XO (OAdd %d %d %d))" % (v, x, y))
             txt.append("v%d = v%d + v%d" % (v, x, y))
             ax, ay, av = atoms_of(vars_[x]), atoms_of(vars_[y]), atoms_of(vars_[v])
             exp = dict(ax)
@@ -156,7 +189,7 @@ def gen_program(exact, length):
             x = rng.choice(sorted(vars_)); v = nextv; nextv += 1
             n = rng.choice(EXACT_MULT) if exact else rng.choice([0, 1, 2, 0.1, 1.5, 3, round(rng.uniform(0, 20), 3), 1e-3, 250])
             vars_[v] = n * vars_[x]
-            ops.append("(ORmul %d %s %d)" % (v, q(n), x))
+            ops.append("(XO (ORmul %d %s %d))" % (v, q(n), x))
             txt.append("v%d = %r * v%d" % (v, n, x))
             ax, av = atoms_of(vars_[x]), atoms_of(vars_[v])
             if set(ax) != set(av) or any(not rel(n * ax[kk], av[kk], 1e-11) for kk in ax):
@@ -168,7 +201,7 @@ def gen_program(exact, length):
             f += vars_[y]
             vars_[x] = f
             touched = id(f)
-            ops.append("(OIadd %d %d)" % (x, y))
+            ops.append("(XO (OIadd %d %d))" % (x, y))
             txt.append("v%d += v%d" % (x, y))
             exp = dict(ax)
             for kk, c in ay.items():
@@ -179,11 +212,11 @@ def gen_program(exact, length):
         else:
             x = rng.choice(sorted(vars_)); v = nextv; nextv += 1
             vars_[v] = vars_[x]
-            ops.append("(OAlias %d %d)" % (v, x))
+            ops.append("(XO (OAlias %d %d))" % (v, x))
             txt.append("v%d = v%d" % (v, x))
         # an operation that returns a new formula returns a NEW object (otherwise a later += on the
         # result changes the operand)
-        if k in ("add", "rmul", "fromf", "formula"):
+        if k in ("add", "rmul", "fromf", "formula", "string"):
             newv = max(vars_)
             for v0, (oid, st, de, na) in before.items():
                 if id(vars_[newv]) == oid:
